@@ -44,7 +44,7 @@ func VerifC07Bundles() {
 	if len(want) == 3 {
 		vCover("three-bundles")
 	}
-	c := vChoose("pageSize", 4) + 1
+	c := vInt("pageSize", 1, 4) // symbolic: the listing code and the store decide on it
 	if c == 1 {
 		vCover("page-size-1")
 	}
@@ -85,7 +85,7 @@ func VerifC07Repos() {
 	if len(want) == 4 {
 		vCover("prefix-named-repos")
 	}
-	c := vChoose("pageSize", 5) + 1
+	c := vInt("pageSize", 1, 5)
 	conc := vChoose("concurrency", 2) + 1
 	got, err := ListRepos(stores, BatchSize(c), ConcurrentList(conc))
 	vAssert(err == nil, "list-repos-succeeds")
@@ -140,7 +140,7 @@ func VerifC07Labels() {
 	if n == 3 {
 		vCover("three-labels")
 	}
-	c := vChoose("pageSize", 4) + 1
+	c := vInt("pageSize", 1, 4)
 	conc := vChoose("concurrency", 2) + 1
 	got, err := ListLabels("r", stores, BatchSize(c), ConcurrentList(conc))
 	vAssert(err == nil, "list-labels-succeeds")
@@ -225,7 +225,7 @@ func VerifC07Diamonds() {
 			nKeys++
 		}
 	}
-	c := vChoose("pageSize", nKeys+1) + 1
+	c := vInt("pageSize", 1, nKeys+1)
 	if c == 1 {
 		vCover("page-size-1")
 	}
